@@ -146,14 +146,16 @@ def main():
     datasets = [DS(f"d{i}") for i in range(3)]
     out = []
     for b in job["builds"]:
-        rec = {"id": b["id"]}
+        rec = {"id": b["id"], "stage": "build"}
         try:
             if "pickled" in b:
                 a = pickle.loads(base64.b64decode(b["pickled"]))
             else:
                 a = build(b, datasets, func_adl, simplify_chained_calls,
                           change_extension_functions_to_calls)
+            rec["stage"] = "hash"
             h1 = calc_ast_hash(a)
+            rec["stage"] = "after-hash"
             rec["hash"] = h1
             rec["canon"] = json.dumps(canon(a), separators=(",", ":"))
             # faults between two hashes of the same query object
